@@ -260,7 +260,9 @@ def task_loop(seed):
 
     def inv_outer(st, k):
         f = f_of(st)
-        if f is None or st.env.get("atom_index", pyvc.UNBOUND) is pyvc.UNBOUND:
+        if f is None:
+            raise pyvc.PyvcUnsupported("the output file object the sidecar models is not bound in this version of the function")
+        if pyvc.local(st, "atom_index") is pyvc.UNBOUND:
             return z3.BoolVal(False)
         ai = seq.SymDict._key(st.env["atom_index"])
         return z3.And(k >= 0, k <= NM, f.written.length == W(k), W(k) >= 0, ai == 1 + W(k), *_content(f, k))
@@ -269,6 +271,8 @@ def task_loop(seed):
         f = f_of(st)
         k = st.ghost.get("outer_k")
         if f is None or k is None:
+            raise pyvc.PyvcUnsupported("the output file object / outer index the sidecar models is not bound in this version of the function")
+        if pyvc.local(st, "atom_index") is pyvc.UNBOUND:
             return z3.BoolVal(False)
         ai = seq.SymDict._key(st.env["atom_index"])
         return z3.And(j >= 0, j <= TL(Spec(k)), Complete(Spec(k)), k >= 0, k < NM, W(k) >= 0, f.written.length == W(k) + j,
